@@ -26,6 +26,7 @@ import DimModel.Driver.ExtSel
 import DimModel.Driver.ExtGrouped
 import DimModel.Driver.ExtHeap
 import DimModel.Driver.ExtOpVals
+import DimModel.Driver.ExtTakeNd
 import DimModel.Lib.DatasetCtor
 import DimModel.Driver.ExtC14Ops
 import DimModel.Driver.ExtC14Ops3
@@ -538,7 +539,7 @@ def handle (op : String) (req : Json) : P (List (String × Json)) := do
   | "opx" => handleOpX req
   | "heapx_history" => handleHeapX heapOp encArrObs req
   | "grouped_cache" => match handleGrouped op req with | some r => r | none => throw s!"unknown op {op}"
-  | _ => match ((handleCache op req).orElse (fun _ => handleMulti op req)).orElse (fun _ => handleSel op req) with | some r => r | none => throw s!"unknown op {op}"
+  | _ => match (((handleCache op req).orElse (fun _ => handleMulti op req)).orElse (fun _ => handleSel op req)).orElse (fun _ => handleTakeNd op req) with | some r => r | none => throw s!"unknown op {op}"
 
 def answer (line : String) : String :=
   match Json.parse line with
